@@ -468,6 +468,30 @@ func (e *env) monitorC09(ops []*op, single bool) {
 					if !isParent && (t.amount == nil || t.amount.Cmp(l.remaining) != 0) {
 						b.Violation(fmt.Sprintf("tick %d: lock %s released %v, it held %s", o.epoch, h.StringLE(), t.amount, l.remaining), e.detail(ops, nil))
 					}
+					if isParent && t.amount != nil {
+						// it passes on its own funds plus whatever expired locks below it returned before it was visited:
+						// between its own remainder and that plus everything held below it
+						below := new(big.Int).Set(l.remaining)
+						var sum func(p util.Uint160, depth int)
+						sum = func(p util.Uint160, depth int) {
+							for a2, l2 := range exp {
+								if l2.parent == p && a2 != p && depth < 16 {
+									below.Add(below, l2.remaining)
+									sum(a2, depth+1)
+								}
+							}
+						}
+						sum(h, 0)
+						if t.amount.Cmp(l.remaining) < 0 || t.amount.Cmp(below) > 0 {
+							b.Violation(fmt.Sprintf("tick %d: lock %s released %v, it held %s and the expired locks below it %s in all", o.epoch, h.StringLE(), t.amount, l.remaining, below), e.detail(ops, nil))
+						} else if pl := e.locks[l.parent]; pl != nil && exp[l.parent] == nil && h != l.parent {
+							// a live lock above the chain received what was really passed on (the loop above booked the own remainder)
+							pl.remaining.Add(pl.remaining, new(big.Int).Sub(t.amount, l.remaining))
+							if t.amount.Cmp(l.remaining) != 0 {
+								b.Hit("chain-of-locks-passed-on-funds-from-below")
+							}
+						}
+					}
 				}
 				for a := range exp {
 					if seen[a] != 1 {
